@@ -72,6 +72,8 @@ type pathState struct {
 	snapshot     []gInfo
 	snapBase     int
 	sync         *syncState
+	countSub     string
+	callCount    int
 	raceOn       bool
 	races        []string
 	shadows      map[interface{}]*shadow
